@@ -410,7 +410,10 @@ def run(ctx):
     ctx.rule = ("one case = (command, option, which of CLI / GALLIA_<NAME> / gallia.toml provide a value (valid, invalid or bare "
                 "const flag), the values); the parser is built by the real create_parser with a temp gallia.toml and "
                 "environment; distinct = distinct (command, option, provider combination, values); non-trivial = at least one "
-                "provider besides the default gives a value, or a required option is left without any")
+                "provider besides the default gives a value, or a required option is left without any; further case kinds: a text given "
+                "to an int / HexInt validator (non-trivial = accepted), a (document, dotted key) pair for Config.get_value (non-trivial = "
+                "present), a world of directories / .git / gallia.toml files / environment for search_config, a configuration sent through "
+                "Rerunner.main from META.json and from run_meta")
     cmds = L.commands()
     ctx.notes["commands"] = len(cmds)
     import c18_synth
@@ -1336,6 +1339,21 @@ def check_discovery(ctx, rng):
     dt = DiscTree()
     root = dt.root
     try:
+        # does the `git` of this machine take the fake .git directory for a repository? (no git at all, or one that refuses
+        # the directory, says nothing about gallia: then only the worlds without a .git are run, and that is recorded)
+        import subprocess
+
+        _fake_git(dt.chain[2])
+        try:
+            probe = subprocess.run(["git", "rev-parse", "--show-toplevel"], capture_output=True, cwd=dt.chain[0]).stdout.decode().strip()
+        except OSError:
+            probe = ""
+        git_ok = probe == dt.chain[2]
+        import shutil as _sh
+
+        _sh.rmtree(os.path.join(dt.chain[2], ".git"), ignore_errors=True)
+        if not git_ok:
+            ctx.assume("git is not available (or does not accept the fake .git directory) on this machine: config discovery is tied without git roots")
         worlds = list(itertools.product(itertools.product([0, 1], repeat=3), itertools.product([0, 1], repeat=3), [0, 1], [0, 1], [0, 1], "uem",
                                         ["-", "0", "1", "01", "10", "11"]))
         if ctx.quick and not ctx.widened:
@@ -1343,6 +1361,8 @@ def check_discovery(ctx, rng):
             pick = [w for w in worlds if w[5] == "u" and w[6] == "-" and w[2:5] == (1, 1, 0)]
             rest = [w for w in worlds if w not in set(pick)]
             worlds = pick + rng.sample(rest, 90)
+        if not git_ok:
+            worlds = [w for w in worlds if not any(w[0])]
         worlds.sort(key=lambda w: w[0])
         lines, meta = [], []
         for w in worlds:
